@@ -136,7 +136,7 @@ def main():
                 "evidence_file": f"/verif/evidence/{pid}.json",
                 "replay_cmd_template": "/verif/bin/check --replay {path}",
                 "engine": "sonicsa",
-                "level_claimed": {"category": "other", "text": text, "design_ref": ref},
+                "level_claimed": {"category": "other", "text": text + " Further necessary conditions added while the check was exercised against seeded changes and defect hunts (rounds 2-5) are listed by rule id under `technique`; each rule's statement is quoted in the evidence file and tabulated in DESIGN.md §8.", "design_ref": ref + ", §8"},
                 "level_note": note,
                 "technique": technique(pid, tech),
             })
